@@ -38,7 +38,7 @@ def unbind():
 
 
 class _Task:
-    __slots__ = ("n", "fn", "args", "kwargs", "state", "value", "exc", "future")
+    __slots__ = ("n", "fn", "args", "kwargs", "state", "value", "exc", "future", "pickled")
 
     def __init__(self, n, fn, args, kwargs):
         self.n = n
@@ -49,6 +49,7 @@ class _Task:
         self.state = "pending"  # pending -> inflight -> done
         self.value = None
         self.exc = None
+        self.pickled = False
 
 
 class _Core:
@@ -68,9 +69,19 @@ class _Core:
 
     # ---------------------------------------------------------- transitions
     def submit(self, fn, args, kwargs):
-        if self.boundary == "process":
+        # boundary == 'process': a real pool keeps the caller's objects by reference
+        # in its pending queue and pickles them when the task is handed to a worker
+        # (feeder / task-handler thread), i.e. some time after submit - here: when
+        # the task starts, or already at submit (tape's choice).  Mutating an
+        # argument after submitting it is therefore visible to late-starting tasks,
+        # exactly as with multiprocessing.Pool / ProcessPoolExecutor.
+        if self.boundary == "process" and self.tape.flag(1, 3, "ex-pickle-at-submit"):
             fn, args, kwargs = cloudpickle.loads(cloudpickle.dumps((fn, args, kwargs)))
+            early = True
+        else:
+            early = False
         t = _Task(len(self.tasks), fn, args, kwargs)
+        t.pickled = early
         self.tasks.append(t)
         # eager progress at submit time: a few steps, chosen by the tape
         steps = self.tape.choose(self.eager_den, "ex-eager")
@@ -106,6 +117,10 @@ class _Core:
         t.state = "inflight"
         self.start_order.append(t.n)
         try:
+            if self.boundary == "process" and not t.pickled:
+                t.fn, t.args, t.kwargs = cloudpickle.loads(
+                    cloudpickle.dumps((t.fn, t.args, t.kwargs)))
+                t.pickled = True
             t.value = t.fn(*t.args, **t.kwargs)
         except Exception as e:  # delivered at result()
             traceback.clear_frames(e.__traceback__)  # see World._ActorCtx.__exit__
@@ -256,6 +271,7 @@ class SimExecutor:
 
     def __init__(self, workers=2, fifo=True, boundary="thread", tape=None):
         self.core = _Core(workers, fifo, boundary, tape or _bound["tape"])
+        self._max_workers = self.core.workers  # as concurrent.futures executors have
 
     def submit(self, fn, *args, **kwargs):
         return SimFuture(self.core, self.core.submit(fn, args, kwargs))
@@ -286,6 +302,7 @@ class SimMPPool(multiprocessing.pool.Pool):
         # deliberately no super().__init__(): nothing is started
         self._state = "CLOSE"
         self.core = _Core(workers, fifo, boundary, tape or _bound["tape"])
+        self._processes = self.core.workers  # as multiprocessing.pool.Pool has
 
     def apply_async(self, func, args=(), kwds=None, callback=None, error_callback=None):
         return SimAsyncResult(self.core, self.core.submit(func, tuple(args), dict(kwds or {})))
